@@ -19,6 +19,7 @@ import random
 import shutil
 import tempfile
 
+from dsim import clock
 from dsim.core import Outcome
 from dsim.core import Scenario
 from dsim.core import Tape
@@ -88,7 +89,7 @@ class Conditional(Scenario):
             if mode == "cond":
                 ev["etag_cond"] = rng.choice(["none", "inm_mine", "inm_mine", "inm_list", "inm_star", "inm_other", "inm_weakened", "inm_garbage", "im_mine", "im_star", "im_other", "im_list"])
                 ev["date_cond"] = rng.choice(["none", "none", "mine", "mine", "before", "after", "mine_rfc850", "mine_offset", "garbage"])
-                if ev["etag_cond"].startswith("im_"):
+                if ev["etag_cond"].startswith("im_") and rng.random() < 0.5:
                     ev["date_cond"] = "none"
             elif mode == "range":
                 ev["range"] = gen_range(rng, size)
@@ -131,7 +132,18 @@ class Conditional(Scenario):
             return FileWrapper(f, max(1, int(case.get("block", 8192) or 1))), True, f
         return list(pieces), False, None
 
+    # every module on the request path that could read the wall clock reads the simulated one
+    CLOCKED = ("werkzeug.http", "werkzeug.sansio.http", "werkzeug.sansio.response", "werkzeug.utils")
+
     def execute(self, case: dict) -> Outcome:
+        clk = [EPOCH]
+        with clock.patched(lambda: clk[0], self.CLOCKED) as fake:
+            out = self._execute(case, clk)
+            if fake.reads:
+                out.fault("simulated_clock_read", fake.reads)
+        return out
+
+    def _execute(self, case: dict, clk: list) -> Outcome:
         from werkzeug import http
         from werkzeug.exceptions import RequestedRangeNotSatisfiable
         from werkzeug.wrappers import Response
@@ -139,7 +151,7 @@ class Conditional(Scenario):
         out = Outcome()
         tr = Trace()
         pre = f"{self.pid}/{self.name}"
-        now = EPOCH + dt.timedelta(microseconds=int(case.get("start_us", 0) or 0))
+        now = clk[0] = EPOCH + dt.timedelta(microseconds=int(case.get("start_us", 0) or 0))
         version = 1
         size = max(0, min(400, int(case.get("size", 10) or 0)))
         content = content_for(version, size)
@@ -166,7 +178,7 @@ class Conditional(Scenario):
                 continue
             if ev[0] == "write":
                 gap = ev[1] if isinstance(ev[1], int) and ev[1] >= 0 else 0
-                now = now + dt.timedelta(microseconds=gap)
+                now = clk[0] = now + dt.timedelta(microseconds=gap)
                 version += 1
                 size = max(0, min(400, ev[2] if len(ev) > 2 and isinstance(ev[2], int) else size))
                 content = content_for(version, size)
@@ -176,7 +188,7 @@ class Conditional(Scenario):
                 tr.add("write", version, size, lm.isoformat())
                 continue
             spec = ev[1] if isinstance(ev[1], dict) else {}
-            now = now + dt.timedelta(microseconds=int(spec.get("wait_us", 0) or 0))
+            now = clk[0] = now + dt.timedelta(microseconds=int(spec.get("wait_us", 0) or 0))
             method = spec.get("method", "GET") if spec.get("method") in ("GET", "HEAD", "POST") else "GET"
             mem = memory[spec.get("client", 0) % 2]
             environ = {"REQUEST_METHOD": method, "SERVER_NAME": "localhost", "SERVER_PORT": "80", "wsgi.url_scheme": "http", "PATH_INFO": "/r", "SCRIPT_NAME": "", "QUERY_STRING": ""}
@@ -216,7 +228,7 @@ class Conditional(Scenario):
                     environ["HTTP_IF_NONE_MATCH"] = raw
                 dc = spec.get("date_cond", "none")
                 seen_lm = mem.get("lm")
-                if dc != "none" and im is None:
+                if dc != "none":
                     base = seen_lm or ref.trunc(lm)
                     if dc == "before":
                         d = base - dt.timedelta(seconds=1)
